@@ -23,7 +23,27 @@ RULE = ("case = 2..4 workers x add sequences over a small alphabet forcing 0..3 
         "workers inside a lock-protected region or between a pointer read and write; "
         "distinct by (case, choice list) hash")
 
-ALPHA = ['a', 'b', 'c', 'd', 'e', 'f', 'g', 'h', 'i', 'j', 't1', 't2', 's-1']
+# '' (a group that matched the empty string) and the int 0 (a typed field) are falsy but are
+# values like any other
+ALPHA = ['a', 'b', 'c', 'd', 'e', 'f', 'g', 'h', 'i', 'j', 't1', 't2', 's-1', '', 0]
+
+
+def enc(v):
+    """ the model's values are strings: injective encoding of the non-string ones """
+    if v is None or isinstance(v, str):
+        return v
+    return '\x00%s:%r' % (type(v).__name__, v)
+
+
+def enc_trace(trace):
+    out = []
+    for ev in trace:
+        if ev[0] == 'dset':
+            ev = ev[:3] + [enc(ev[3])]
+        elif ev[0] in ('rset', 'rin'):
+            ev = ev[:3] + [enc(ev[3])] + ev[4:]
+        out.append(ev)
+    return out
 
 
 def gen_case(rng, tier):
@@ -159,8 +179,9 @@ def spec_check(case, impl):
 
 
 def model_case(item):
-    return {'kind': 'parstore', 'B': item['case']['B'], 'progs': item['case']['progs'],
-            'events': item['impl']['trace']}
+    return {'kind': 'parstore', 'B': item['case']['B'],
+            'progs': [[[enc(x) for x in op] for op in p] for p in item['case']['progs']],
+            'events': enc_trace(item['impl']['trace'])}
 
 
 def interesting(impl):
@@ -206,7 +227,8 @@ def judge(rep, item, mobs):
     mg = [w['grants'] for w in m['workers']]
     ig = [[b[0] for b in g] for g in impl['grants']]
     mshared = sorted(m['shared'])
-    if mg != ig or mshared != impl['shared'] or not all(w['done'] for w in m['workers']) \
+    ishared = sorted([k, enc(v)] for k, v in impl['shared'])
+    if mg != ig or mshared != ishared or not all(w['done'] for w in m['workers']) \
             or m['ptr'] != impl['ptr']:
         rep.fail('correspondence-broken', case,
                  f"final state differs: grants impl={ig} model={mg}; shared impl="
